@@ -250,7 +250,7 @@ def _gen_solve(rng, i, tier):
     c = [rng.choice([0.0, 0.0, 1.0, -1.0, 2.0]) for _ in range(n)]
     ties = [[rng.randrange(n), rng.randrange(n)] for _ in range(rng.choice([0, 0, 1, 2, 3]))]
     ties = [t for t in ties if t[0] != t[1]]
-    which = rng.choice(["at0", "at0", "atN", "atN", "as", "as", "asoff", "at+as", "atN+as", "atL"])
+    which = rng.choice(["at0", "at0", "atN", "atN", "as", "as", "asoff", "at+as", "atN+as", "atL", "at+as-lead", "at+as-lead"])
     terms = []
     g = rng.choice([1, 2, 3, 5, 10])
     tol = rng.choice([1e-2, 1e-3, 1e-4, 1e-6])
@@ -265,6 +265,17 @@ def _gen_solve(rng, i, tier):
     if which == "asoff":
         terms.append(["as", True, tol, g])
         ties = ties or [[0, 1]]
+    if which == "at+as-lead":
+        # both kinds reported by the SAME termination check and sharing a parameter: x_i settles at the target, x_j settles a little
+        # further away than the CollapseAt tolerance but within the CollapseAs tolerance, so i is fixed AND leads the pair (i, j)
+        i_, j_ = rng.sample(range(n), 2)
+        t_ = rng.choice([0.0, 1.0, -1.0])
+        c[i_], c[j_] = t_, t_ + 0.005
+        w[i_], w[j_] = 1, 1
+        ties = []
+        g = rng.choice([20, 40, 60])
+        terms = [["as", False, 1e-2, g], ["at", t_, 1e-3, g]]
+        solver = rng.choice(["PW", "PW", "NM"])
     x0 = [round(rng.uniform(-3, 3), 3) for _ in range(n)]
     return dict(kind="solve", solver=solver, n=n, w=w, c=c, ties=ties, tiegap=rng.choice([0.0, 0.0, 0.5]) if which == "asoff" else 0.0,
                 terms=terms, cog=[1e-12, rng.choice([20, 50])], x0=x0, seed=i, maxfun=rng.choice([3000, 20000]),
@@ -1040,9 +1051,15 @@ def _oracle_solve(case, obs):
         # relation exact on every later evaluation and on the final solution
         pts = log[e["at"] - base:] + [obs["best"]]
         for c in e["collapses"]:
+            # coordinates written by transformations APPLIED AFTER this one (known finding: they may overwrite it).  The composition is
+            # c0 o I(round 1) o ... o I(round N), i.e. later rounds are applied first, and within a round impose_at is applied before
+            # impose_as: after an impose_at come the impose_as of its own round and everything of earlier rounds; after an impose_as only
+            # the earlier rounds.  (An impose_as overwritten by the impose_at of its OWN round is not the documented order.)
             others = set()
             for (ej, c2, wr) in applied:
-                if c2 is not c:
+                if c2 is c:
+                    continue
+                if ej < ei or (ej == ei and c["det"] == "CollapseAt" and c2["det"] != "CollapseAt"):
                     others |= wr
             if c["det"] == "CollapseAt":
                 for i in c["what"]:
